@@ -146,6 +146,7 @@ class InducingPointKernel(Kernel):
             likelihood=copy.deepcopy(self.likelihood, memo),
             active_dims=self.active_dims,
         )
+        cp.training = self.training
 
         if replace_inv_root:
             cp._cached_kernel_inv_root = kernel_inv_root
